@@ -12,7 +12,7 @@ TRACE_FILES = ("transceiver.py", "burst_fwd.py", "fake_trx.py", "data_if.py", "c
 
 
 # ------------------------------------------------------------------ plan generation ----
-def build_race_plan(rng, tier):
+def build_race_plan(rng, tier, prop=None):
 	"""BTS (0) and MS (1) tuned to each other, plus one passive sniffer per sender that is
 	never commanded after set-up, so that every emission is observable on the wire."""
 	ports = [5700 + 400 * k for k in range(10)]
@@ -32,7 +32,8 @@ def build_race_plan(rng, tier):
 	else:
 		trx += [{"name": "SNB", "addr": "127.0.0.1", "port": ports[1], "idx": 1, "child_mgt": True},
 			{"name": "SNM", "addr": "127.0.0.1", "port": ports[1], "idx": 2, "child_mgt": True}]
-	child = rng.random() < 0.3
+	# C12 is about parents and their managed children: its runs mostly have a child transceiver
+	child = rng.random() < (0.6 if prop == "C12" else 0.3)
 	if child:
 		trx.append({"name": "BC1", "addr": "127.0.0.1", "port": ports[0], "idx": 1, "child_mgt": True})
 	ops = []
@@ -91,7 +92,7 @@ def build_race_plan(rng, tier):
 			op = {"op": "burst", "trx": s, "adv": rng.choice([1, 1, 1, 2, 0, 3]), "tn": rng.randrange(8), "pwr": 0,
 				"kind": rng.choice(["NB", "RAND"]), "bseed": rng.randrange(1 << 30), "ver": ver[s]}
 		elif r < 0.65:
-			op = {"op": "cmd", "trx": rng.choice([0, 1, 1]), "text": "POWEROFF"}
+			op = {"op": "cmd", "trx": rng.choice([0, 0, 1] if (prop == "C12" and child) else [0, 1, 1]), "text": "POWEROFF"}
 			if not own_clock and rng.random() < 0.6:
 				# the other clock owner is already off: this POWEROFF stops the clock generator
 				ops.append({"op": "cmd", "trx": 1 - op["trx"], "text": "POWEROFF", "dt": 1000})
